@@ -65,11 +65,11 @@ def cases(tier, seed):
         for ax in range(3):
             if not th and ax != (n + 1) % 3:
                 continue
-            out.append(dict(name=f"construct-n{n}-ax{ax}", kind="construct", shape=[n if a == ax else 0 for a in range(3)]))
-    out.append(dict(name="construct-2x1x2", kind="construct", shape=[2, 1, 2]))
+            out.append(dict(name=f"construct-n{n}-ax{ax}", kind="construct", shape=[n if a == ax else 0 for a in range(3)], cfl=n <= 3))
+    for shape in ([[1, 1, 1], [2, 1, 1], [1, 2, 1], [1, 1, 2]] if th else [[1, 1, 1], [2, 1, 1]]):
+        out.append(dict(name="construct-" + "x".join(map(str, shape)), kind="construct", shape=shape))
     if th:
-        out.append(dict(name="construct-2x2x2", kind="construct", shape=[2, 2, 2]))
-        out.append(dict(name="construct-1x3x1", kind="construct", shape=[1, 3, 1]))
+        out.append(dict(name="construct-2x1x2", kind="construct", shape=[2, 1, 2], cfl=False))
     out.append(dict(name="construct-bad-edges", kind="badedges"))
     for shape in ([[2, 2, 2], [3, 2, 1], [1, 2, 3]] if th else [[2, 2, 2]]):
         out.append(dict(name="measure-" + "x".join(map(str, shape)), kind="measure", shape=shape))
@@ -98,6 +98,8 @@ def _has_sym(x):
         return x.dtype == object and any(_is_sym(v) for v in x.reshape(-1))
     if isinstance(x, (list, tuple)):
         return any(_has_sym(v) for v in x)
+    if isinstance(x, dict):
+        return any(_has_sym(v) for v in x.values())
     return False
 
 
@@ -319,7 +321,46 @@ def check(c, st, name, key, inputs, assume, call, oracle, max_paths=4000):
             raise Inconclusive(f"witness is a near-tie that float round-off may decide: {detail}")
         return True, detail
 
-    return c.sym_explore(name, fn, post, assume, replay, key=key, max_paths=max_paths)
+    return _explore(c, name, fn, post, assume, replay, key, max_paths)
+
+
+def _conjuncts(f):
+    if isinstance(f, SymBool):
+        f = f.t
+    if isinstance(f, z3.ExprRef) and z3.is_and(f):
+        return [g for ch in f.children() for g in _conjuncts(ch)]
+    return [f]
+
+
+def _explore(c, name, fn, post, assume, replay, key, max_paths):
+    """Case.sym_explore, except that a conjunctive post-condition is proved conjunct by conjunct (small queries; a
+    conjunction of linear and nonlinear facts in one query sent z3 astray)."""
+    ex = pysym.Explorer(assume, max_paths=max_paths, timeout_ms=c.timeout_ms)
+
+    def on_path(res, exc, pc):
+        parts = _conjuncts(post(res, exc))
+        hard = [p for p in parts if not (isinstance(p, (bool, np.bool_)) and p)]
+        if not hard:
+            hard = [True]
+        for k, p in enumerate(hard):
+            if isinstance(p, z3.ExprRef):
+                sp = z3.simplify(p)
+                if z3.is_true(sp) and len(hard) > 1:
+                    continue
+            c.prove(f"{name}#path{ex.paths}" + (f".{k}" if len(hard) > 1 else ""), p, pc, replay, key)
+
+    try:
+        ex.explore(fn, on_path)
+    except pysym.Budget as b:
+        c.inconclusive.append(f"{c.name}/{name}: exploration budget: {b}")
+    c.paths += ex.paths
+    c.queries += ex.queries
+    c.solver_s += ex.solver_s
+    c.extra.setdefault("concretisations", 0)
+    c.extra["concretisations"] += ex.concretisations
+    if ex.unknown:
+        c.notes.append(f"{name}: {ex.unknown} feasibility queries were 'unknown' (both sides explored)")
+    return ex
 
 
 # ------------------------------------------------------------------------------------------------ grids
@@ -533,26 +574,44 @@ def _case_construct(c, st, G, case):
     cf, ccf = fresh_real("courant", 0, 1, lo_strict=True)
     c.symvars += 1
 
+    def build(v):
+        if _has_sym(v["e"]):
+            return G.RectilinearGrid(x_edges=_NpShim.asarray(v["e"][0]), y_edges=_NpShim.asarray(v["e"][1]), z_edges=_NpShim.asarray(v["e"][2]))
+        return _grid(G, v["e"])
+
     def call(v):
-        g = G.RectilinearGrid(x_edges=_NpShim.asarray(v["e"][0]), y_edges=_NpShim.asarray(v["e"][1]), z_edges=_NpShim.asarray(v["e"][2])) \
-            if _has_sym(v["e"]) else _grid(G, v["e"])
+        g = build(v)
         try:
             us = g.uniform_spacing
         except ValueError:
             us = None
         return dict(edges=[list(np.asarray(g.edges(a))) for a in range(3)], widths=[list(np.asarray(g.cell_widths(a))) for a in range(3)],
-                    mins=list(g.min_spacings), min=g.min_spacing, shape=g.shape, is_uniform=g.is_uniform, uniform_spacing=us,
-                    dt=g.cfl_time_step(v["cf"]))
+                    mins=list(g.min_spacings), min=g.min_spacing, shape=g.shape, is_uniform=g.is_uniform, uniform_spacing=us)
+
+    def call_cfl(v):
+        return dict(dt=build(v).cfl_time_step(v["cf"]))
 
     inputs = dict(e=e3, cf=cf)
     check(c, st, "post_init", "RectilinearGrid.__post_init__", inputs, assume + ccf, call, _o_construct)
-    # the CFL bound as stated (relative 1e-9 for the float constants): separate key per branch of cfl_time_step
-    check(c, st, "cfl_time_step", "RectilinearGrid.cfl_time_step:bound", inputs, assume + ccf, call,
-          lambda A, v, res, exc: _o_cfl(A, v, res, exc, Fraction(1, 10**9)))
-    # and the weaker fact that certainly holds under the documented uniformity tolerance
-    check(c, st, "cfl_time_step (within the uniformity tolerance)", "RectilinearGrid.cfl_time_step:bound-1e-4", inputs, assume + ccf, call,
-          lambda A, v, res, exc: _o_cfl(A, v, res, exc, Fraction(10001, 10**8)))
-    c.witness("twin: strictly increasing edges with two different widths", z3.BoolVal(True), assume + ccf)
+    c.witness("twin: strictly increasing edges", z3.BoolVal(True), assume + ccf)
+    if not case.get("cfl", True):
+        return
+    # the CFL bound as stated (relative 1e-9 for the float constants), by regime of the (oracle-side) uniformity predicate
+    ws = [pysym.term(e[i + 1]) - pysym.term(e[i]) for e in e3 for i in range(len(e) - 1)]
+    s0 = ws[0]
+    rt = z3.RealVal(Fraction(1e-4))
+    uni = z3.And(*[z3.And(w - s0 <= rt * s0, s0 - w <= rt * s0) for w in ws])
+    exact = z3.And(*[w == s0 for w in ws])
+    tight, loose = Fraction(1, 10**9), Fraction(1001, 10**7)
+    regimes = [("widths not uniform within 1e-4", [z3.Not(uni)], "metric-branch", tight)]
+    if all(n > 0 for n in shape):
+        regimes += [("exactly uniform", [exact], "exactly-uniform", tight),
+                    ("uniform within 1e-4, bound up to 1.001e-4", [uni], "near-uniform-weak", loose),
+                    ("uniform within 1e-4", [uni], "near-uniform", tight)]
+    for nm, extra, ksfx, slack in regimes:
+        c.witness(f"twin: regime '{nm}' is inhabited", z3.And(*extra), assume + ccf)
+        check(c, st, f"cfl_time_step[{nm}]", f"RectilinearGrid.cfl_time_step:{ksfx}", inputs, assume + ccf + extra, call_cfl,
+              lambda A, v, res, exc, slack=slack: _o_cfl(A, v, res, exc, slack))
 
 
 def _case_badedges(c, st, G, case):
